@@ -174,10 +174,13 @@ func main() {
 		}
 	}
 	{
+		// first in the queue: it has the longest budget and overlaps with everything else
 		vc := g.theoryConsistency()
+		var th []oblItem
 		for _, o := range vc.obls {
-			items = append(items, oblItem{vc, o})
+			th = append(th, oblItem{vc, o})
 		}
+		items = append(th, items...)
 	}
 	if *only == "" {
 		for _, ax := range cs.Axioms {
@@ -203,6 +206,9 @@ func main() {
 	solveT0 := time.Now()
 	dischargeAll(scratch, items, tmo, *tier == "thorough")
 	solveS := time.Since(solveT0).Seconds()
+	if os.Getenv("GOVC_DEBUG") != "" {
+		fmt.Fprintf(os.Stderr, "query text generation (cpu, summed over workers): %.1fs\n", float64(queryGenNs)/1e9)
+	}
 
 	// known findings
 	var kfs []KnownFinding
@@ -230,6 +236,9 @@ func main() {
 		solverMs += o.Ms
 		if o.Expect == "sat" {
 			covers++
+			if *verbose {
+				fmt.Fprintf(os.Stderr, "  cover %-8s %6dms %s  %s\n", o.Status, o.Ms, o.Name, truncate(o.Output, 160))
+			}
 			if o.Status == "ok" {
 				coversOK++
 			} else {
